@@ -160,7 +160,8 @@ def gen_cases(tier, seed):
     cases = []
     fam = workload.families("country")
     if tier == "quick":
-        sel = workload.rotate([i for i in workload.HOSTILE if i in isos], seed)[:16] + rnd.sample(isos, 24)
+        sel = workload.zero_rows(seed, 4) + workload.rotate([i for i in workload.HOSTILE if i in isos], seed)[:16] + rnd.sample(isos, 24)
+        sel = list(dict.fromkeys(sel))
     else:
         sel = isos
     for k, iso in enumerate(sel):
@@ -183,6 +184,20 @@ def gen_cases(tier, seed):
         o["scale"] = "global"
         o.update(workload.FIXED)
         cases.append({"kind": "first_round", "iso": "WOR", "opts": o, "id": "WOR#%d" % j})
+    # multi-country calls: the countries whose options the repository rewrites on purpose come first in table order (ALB is
+    # the second row), so every call contains one of them together with countries handled after it
+    tabs = isos
+    for j in range(6 if tier == "quick" else 60):
+        o = workload.base_country(NMONTHS=rnd.choice([120, 72, 48]))
+        if j % 2 == 0:
+            o.update(scenario=rnd.choice(["all_resilient_foods", "seaweed"]), cull="do_eat_culled", shutoff=rnd.choice(["continued", "long_delayed_shutoff", "short_delayed_shutoff"]))
+            if j % 4 == 2:
+                o.update(meat_strategy="feed_only_ruminants", shutoff="long_delayed_shutoff", crop_disruption="zero", ratio_stocks_untouched=rnd.choice(["zero", "baseline"]))
+        else:
+            for f in rnd.sample(SUPPLY_FAMS, 3):
+                o[f] = rnd.choice(fam[f])
+        sel = rnd.sample(["ALB", "SLV", "ECU"], rnd.choice([1, 2])) + rnd.sample(tabs, 8 if tier == "quick" else 20)
+        cases.append({"kind": "batch", "countries": sel, "opts": o, "id": "batch#%d" % j})
     n = 40 if tier == "quick" else 400
     for cls in ("outdoor_crops", "seafood", "stored_food", "methane_scp", "cellulosic_sugar", "seaweed", "feed_and_biofuels", "grass"):
         for k in range(n // 4 if tier == "quick" else n // 4):
@@ -254,8 +269,33 @@ def first_round(case):
         return {"viol": [], "obs": {"first_round": True, "iso": iso, "failed": repr(e)[:120], "audited": 0}}
     finally:
         capture.CUR = None
+    return audit_outputs(case["id"], iso, opts, tin, out, tr)
+
+
+def documented_delays(opts, iso, N):
+    """feed / biofuel shut-off delays (months) documented for the *submitted* option; None for an undocumented value.
+    For the three (country, option) combinations the repository rewrites on purpose, 'immediate' is accepted too."""
+    from props.c13 import SHUTOFF
+
+    v = opts.get("shutoff")
+    if v not in SHUTOFF:
+        return None
+    f, b, _ = SHUTOFF[v]
+    return [(N if f == "N" else f, N if b == "N" else b)] + ([(0, 0)] if iso in ("SLV", "ALB", "ECU") else [])
+
+
+def audit_outputs(case_id, iso, opts, tin, out, tr, after=None):
+    from src.food_system.food import Food
+
+    N = opts["NMONTHS"]
+    ck = Checker("%s %s%s" % (iso, case_id, " (after %s in one call)" % ",".join(after) if after else ""))
     co, tc = out[0], out[1]
     inp = co["inputs"]
+    dd = documented_delays(opts, iso, N)
+    got_d = (inp["DELAY"]["FEED_SHUTOFF_MONTHS"], inp["DELAY"]["BIOFUEL_SHUTOFF_MONTHS"])
+    if dd is not None and got_d not in dd:
+        ck.bad("demand_delay_differs_from_submitted_option", "shutoff=%s submitted: documented feed/biofuel delays %s months, the run uses %s" % (opts.get("shutoff"), dd[0], got_d),
+               iso=iso, shutoff=opts.get("shutoff"), after=after)
     kcm = Food.conversions.kcals_monthly
     data = {"iso": iso, "opts_scenario": opts.get("scenario"), "N": N}
     reloc = bool(inp["OG_USE_BETTER_ROTATION"])
@@ -494,9 +534,71 @@ def direct(case):
     return {"viol": ck.viol, "obs": {"direct": cls, "audited": case["examples"], "nontrivial": int(nt), "maxres": ck.maxres, "examples": ex, "viol_counts": dict(ck.seen)}}
 
 
+def batch(case):
+    """One multi-country call of run_model_no_trade: the real dispatcher and option handling per country, with the three
+    optimisation rounds replaced by the first-round parameter computation, whose series are audited for every country."""
+    import contextlib
+    import io
+
+    from src.optimizer.parameters import Parameters
+    from src.scenarios.run_model_no_trade import ScenarioRunnerNoTrade
+    from src.scenarios.run_scenario import ScenarioRunner
+
+    capture.install()
+    opts = dict(case["opts"])
+    submitted = dict(opts)
+    viol, obs_n, done, maxres, seen = [], 0, [], {}, collections.Counter()
+    orig = ScenarioRunner.run_and_analyze_scenario
+
+    class _Res:
+        percent_people_fed = 50.0
+
+    def stub(self, c, t, l, *a, **k):
+        iso = c["COUNTRY_CODE"] if "COUNTRY_CODE" in c else a[-1]
+        tr = capture.Trace(case)
+        capture.CUR = tr
+        try:
+            tin = dict(t)
+            out = Parameters().compute_parameters_first_round(c, t, l)
+        finally:
+            capture.CUR = None
+        r = audit_outputs(case["id"], iso, submitted, tin, out, tr, after=list(done))
+        done.append(iso)
+        viol.extend(r["viol"])
+        for kk, v in r["obs"]["maxres"].items():
+            maxres[kk] = max(maxres.get(kk, 0), v)
+        seen.update(r["obs"]["viol_counts"])
+        nonlocal_n[0] += r["obs"]["audited"]
+        return _Res()
+
+    nonlocal_n = [0]
+    ScenarioRunner.run_and_analyze_scenario = stub
+    failed = None
+    try:
+        with contextlib.redirect_stdout(io.StringIO()):
+            ScenarioRunnerNoTrade().run_model_no_trade(title="b", create_pptx_with_all_countries=False, show_country_figures=False, show_map_figures=False,
+                                                      add_map_slide_to_pptx=False, scenario_option=opts, countries_list=list(case["countries"]), return_results=True)
+    except BaseException as e:  # noqa: BLE001
+        if isinstance(e, KeyboardInterrupt):
+            raise
+        failed = repr(e)[:150]
+    finally:
+        ScenarioRunner.run_and_analyze_scenario = orig
+    # keep at most two violations per mechanism
+    keep, cnt = [], collections.Counter()
+    for v in viol:
+        cnt[v["mech"]] += 1
+        if cnt[v["mech"]] <= 2:
+            keep.append(v)
+    return {"viol": keep, "obs": {"first_round": True, "batch": True, "iso": "+".join(done[:3]), "N": submitted["NMONTHS"], "audited": nonlocal_n[0], "maxres": maxres, "countries_in_call": len(done),
+                                  "scenario": submitted.get("scenario"), "crops_compared": False, "viol_counts": dict(seen), "failed": failed}}
+
+
 def run_case(case, tier):
     if case["kind"] == "first_round":
         return first_round(case)
+    if case["kind"] == "batch":
+        return batch(case)
     return direct(case)
 
 
@@ -520,6 +622,7 @@ def summarize(cases, records, tier):
         "rule": "first-round cases: (country, supply-affecting option vector, horizon) with every returned series compared with its documented closed form (non-trivial = crop series compared, i.e. no relocation/greenhouse); "
                 "direct cases: generated constants per food_system class incl. a scaling re-run (non-trivial = non-zero series); evaluations = series compared",
         "samples": [{k: r["obs"].get(k) for k in ("iso", "N", "scenario", "audited", "maxres")} for r in fr_ok[:: max(1, len(fr_ok) // 5)]][:6] + [{"direct": r["obs"]["direct"], "examples": r["obs"]["examples"]} for r in dr[:3]],
+        "multi_country_calls": sum(1 for r in fr_ok if r["obs"].get("batch")), "countries_audited_inside_multi_country_calls": int(sum(r["obs"].get("countries_in_call", 0) for r in fr_ok)),
         "first_round_runs": len(fr_ok), "first_round_failed": len(fr) - len(fr_ok), "countries": len({r["obs"]["iso"] for r in fr_ok}),
         "horizons": sorted({r["obs"]["N"] for r in fr_ok}),
         "direct_examples_by_class": dict(per), "direct_nontrivial_by_class": dict(nt),
